@@ -171,12 +171,15 @@ def run(prop, tier):
         for (cl, pl) in two:
             if pl and pl[0][0] == 0 and pl[0][1] > 0:
                 cases.append(("two", cl, pl, None))
+                # the same trace with the second stream's thread directory (or the whole process directory) living elsewhere
+                # and reached through a symbolic link
+                cases.append(("linked", cl, pl, ("thread", "proc")[len(cases) % 2]))
         meta = lambda tid, first: obs.stream_meta(tid, 10, "L", cpus=[(0, 0)] if first else None)
 
         def streams_of_case(case):
             kind, cl, pl, _ = case
             streams = []
-            if kind == "two":
+            if kind in ("two", "linked"):
                 first = build_stream((0, 1, 2, 2), ((1, 3),), 100)
                 streams.append((obs.relpath("L", 10, 100), first, True))
                 streams.append((obs.relpath("L", 10, 200), build_stream(cl, pl, 200, 1, head_region=True), False))
@@ -193,6 +196,14 @@ def run(prop, tier):
             streams = streams_of_case(case)
             for rel, evs, first in streams:
                 obs.write_stream(td, rel, meta(int(rel.split(".")[-1]), first), enc_all(evs))
+            if kind == "linked":
+                ext = td + "-ext"
+                shutil.rmtree(ext, ignore_errors=True)
+                os.makedirs(ext)
+                src = os.path.join(td, streams[1][0]) if case[3] == "thread" else os.path.dirname(os.path.join(td, streams[1][0]))
+                dst = os.path.join(ext, os.path.basename(src))
+                shutil.move(src, dst)
+                os.symlink(dst, src)
             out = []
             need = max(lookback_needed(e) for _, e, _ in streams)
             rc, o, err = emusrv.run_tool(srt, [td])
@@ -231,7 +242,7 @@ def run(prop, tier):
             ctx.add(evaluations=1, transitions=4, traces_validated_against_impl=1)
             if msg:
                 ctx.violation("stream clocks=%r regions=%r (%s): %s" % (case[1], case[2], case[0], msg),
-                              {"engine": "E6 real ovnisort", "kind": case[0], "clocks": case[1], "regions": case[2]}, {"kind": "sort"})
+                              {"engine": "E6 real ovnisort", "kind": case[0], "clocks": case[1], "regions": case[2], "linked": case[3]}, {"kind": "sort"})
         ctx.add(states=len(cases))
         ctx.part("sortable", cases=len(cases))
         # the environment may complete a pwrite() only partly: one short count (1 byte / half / all but one) at the first,
